@@ -113,9 +113,10 @@ func union(sets ...[]int) []int {
 	return out
 }
 
-// bound is the statement's error bound at 3 standard errors (1.04/sqrt(m)) plus one unit for rounding.
+// bound is the statement's error bound at 3 standard errors (1.04/sqrt(m)) plus 0.5 because Count() is rounded
+// to an integer.
 func bound(p uint8, n int) float64 {
-	return 3*1.04/math.Sqrt(float64(uint64(1)<<p))*float64(n) + 1
+	return 3*1.04/math.Sqrt(float64(uint64(1)<<p))*float64(n) + 0.5
 }
 
 func sigmas(p uint8, n int, count uint64) string {
@@ -381,7 +382,7 @@ func ladderCheck(p uint8, fam, n int, h *hll.Plus) (*V, string) {
 	b := marshal(h)
 	r := repr(b)
 	if !inBound(p, n, c) {
-		return viol("ladder/error-bound/"+r+"/"+pclass(p), "p=%d key family %d n=%d: Count()=%d, error %+.0f = %+.1f standard errors, exceeds 3*1.04/sqrt(m)*n+1=%.2f", p, fam, n, c, float64(c)-float64(n), nsig(p, n, c), bound(p, n)), ""
+		return viol("ladder/error-bound/"+r+"/"+pclass(p), "p=%d key family %d n=%d: Count()=%d, error %+.0f = %+.1f standard errors, exceeds 3*1.04/sqrt(m)*n+0.5=%.2f", p, fam, n, c, float64(c)-float64(n), nsig(p, n, c), bound(p, n)), ""
 	}
 	u, err := unmarshal(b)
 	if err != nil {
@@ -396,7 +397,7 @@ func ladderCheck(p uint8, fam, n int, h *hll.Plus) (*V, string) {
 		return viol("ladder/merge-error", "p=%d n=%d: %v", p, n, err), ""
 	}
 	if cd := d.Count(); !inBound(p, n, cd) {
-		return viol("ladder/error-bound-after-merge/"+pclass(p), "p=%d key family %d n=%d: Count() of the sketch merged into an empty sketch=%d (before the merge %d, %s), error %+.1f standard errors, exceeds 3*1.04/sqrt(m)*n+1=%.2f", p, fam, n, cd, c, r, nsig(p, n, cd), bound(p, n)), ""
+		return viol("ladder/error-bound-after-merge/"+pclass(p), "p=%d key family %d n=%d: Count() of the sketch merged into an empty sketch=%d (before the merge %d, %s), error %+.1f standard errors, exceeds 3*1.04/sqrt(m)*n+0.5=%.2f", p, fam, n, cd, c, r, nsig(p, n, cd), bound(p, n)), ""
 	}
 	if splitPoint(p, n) {
 		// the operands are merged as they are after their last Add (pending sparse entries not yet flushed by
@@ -608,7 +609,9 @@ func run(c *vlib.Ctx) {
 		G := append([][]int{}, subsets(universe, 1)...)
 		for _, r := range rg {
 			l := len(r)
-			if r[0]%4 == 0 && (l == 4 || l == 6 || l == 8 || l == 12 || l == 16 || l == 24) {
+			if c.Thorough() && r[0]%4 == 0 && (l == 4 || l == 6 || l == 8 || l == 12 || l == 16 || l == 24) {
+				G = append(G, r)
+			} else if !c.Thorough() && r[0]%8 == 0 && (l == 4 || l == 8 || l == 16 || l == 24) {
 				G = append(G, r)
 			}
 		}
@@ -674,17 +677,17 @@ func TestCheck(t *testing.T) {
 		Rule: "hll.Plus at precision 4 (thorough: 4 and 5) over a universe of 24 fixed keys. " +
 			"single: every key subset of size<=4 and every contiguous run of >=4 keys (runs reach the dense representation): marshal->unmarshal keeps Count (two generations), adding every key twice keeps Count, s.Merge(equal sketch) and s.Merge(s) equal s merged into an empty sketch, the unmarshalled copy merges to the same bytes. " +
 			"pair: every unordered pair over {subsets of size<=2} u {runs} (thorough: {size<=3} u {runs}, plus every size-4 subset x the quick family): A.Merge(B) and B.Merge(A) marshal to the same bytes and Count, merging A or B again changes nothing, the result equals the sketch built by adding the union's keys (merged into an empty sketch), B unchanged, round trip of the merged sketch keeps Count. " +
-			"triple: every ordered triple over {subsets of size<=1} u {runs starting at a multiple of 4 with length 4,6,8,12,16,24} (thorough: plus all 2-subsets of the first 10 keys): all 6 merge orders, left and right association, give the bytes of the union's sketch. " +
-			"ladder: for every precision 4..18 and two deterministic key families, keys are added one at a time up to 3m and at every n<=64 and every multiple of m/16 (thorough: every n<=4096 and every multiple of m/64): |Count-n| <= 3*1.04/sqrt(m)*n+1 for the sketch and for the sketch merged into an empty sketch (always dense), round trip keeps Count, and at split points sketch(first half).Merge(sketch(second half)) equals the sketch of all n keys. " +
+			"triple: every ordered triple over {subsets of size<=1} u {runs starting at a multiple of 8 with length 4,8,16,24} (thorough: runs starting at a multiple of 4 with length 4,6,8,12,16,24, plus all 2-subsets of the first 10 keys): all 6 merge orders, left and right association, give the bytes of the union's sketch. " +
+			"ladder: for every precision 4..18 and two deterministic key families, keys are added one at a time up to 3m and at every n<=64 and every multiple of m/16 (thorough: every n<=4096 and every multiple of m/64): |Count-n| <= 3*1.04/sqrt(m)*n+0.5 for the sketch and for the sketch merged into an empty sketch (always dense), round trip keeps Count, and at split points sketch(first half).Merge(sketch(second half)) equals the sketch of all n keys. " +
 			"non-trivial = all operand key sets non-empty / n>0 (distinct by construction)",
 		Assumptions: []string{
 			"the error-bound clause is decided only for the enumerated (precision, n) ladder points of two fixed key families; 'within the bound for random multisets' is a statistical claim that bounded enumeration cannot decide. For the exhaustively enumerated key sets (precision 4/5) no numeric bound is demanded, because a worst-case key set exceeds any bound; there the clause is checked in its exact form: the merged sketch has the bytes, hence the estimate, of the sketch built from the union",
 			"violation signatures separate the production precision (p=16, hll.DefaultPrecision, the only precision the repo constructs) from p=4..7, p=8..15 and p=17..18",
-			"bound used: 3 standard errors (3*1.04/sqrt(m)*n) plus 1 for rounding",
+			"bound used: 3 standard errors (3*1.04/sqrt(m)*n) plus 0.5 because Count() is an integer",
 			"sketches are compared through MarshalBinary bytes; after Merge the receiver is always in the dense representation, so equal registers give equal bytes",
 			"operand sketches are rebuilt from their keys for every merge instead of being cloned",
 		},
-		QuickBudgetS: 45, ThoroughBudgetS: 800,
+		QuickBudgetS: 70, ThoroughBudgetS: 800,
 		Run:    run,
 		Replay: replay,
 	})
